@@ -8,10 +8,17 @@ Two routes (DESIGN I.10), both on the real code or on contracts proved for the r
    proved on the spec: pointwise lemmas (the summand / the minimum-image distance is invariant) + Σ-congruence.  These clauses say
    nothing about the code by themselves, so this check re-runs the functional units they rest on.
 
-Relational units here:  rigid (per-frame) translation and species swap for g(r); rigid translation for the three neighbour writers
-(the written rows are identical).  Lemmas: lattice-shift invariance of the minimum-image distance (C02 clause c instantiated for a pair),
-dilation (bin membership and shell normalisation are scale free), axis permutation of an orthogonal cell, species-swap of the selector,
-g(r) spec invariance under these by Σ-congruence.
+Relational units (this module: g(r) and the neighbour writers; contracts/C07_units.py: every other observable, on the setups of the
+units of C04, C06, C09, C10, C11, C13, C15, C17, which are imported read-only).  Group elements (C07_units.py):
+  Translation      x_i -> x_i + t_s (a vector per frame; one vector for all frames where frames are compared: dynamics, single snapshots);
+  LatticeShift     x_i -> x_i + sum_k KSH(s,i,k) ppp_k H_s[k,:], integer KSH: at every call of remove_pbc the run on g.x applies clause (c) of
+                   the C02 contract — the rows are decomposed as row-of-x + integer lattice vector (obligation, ring normal form);
+  AxisPermutation  coordinates, cell rows and columns, mask and box lengths permuted together (remove_pbc commutes with it: lemma on
+                   the C02 formula, general cell);
+  Relabelling      particle a of g.x is particle PI(a) of x (positions, types, rows and entries of the neighbour / weight files).
+Observables x groups proved: see MANIFEST["text"]; what stays in the bounded stand-in (contracts/C07_relational.py): NOT_DECIDED.
+Lemmas (extra_checks): lattice-shift invariance of the minimum-image vector of a pair (C02 clause c), dilation, axis permutation
+(orthogonal distance; general-cell vector form), species swap of the selector.
 """
 import z3
 
@@ -25,20 +32,53 @@ from pyvc.interp import FuncVal, load_module
 from pyvc.vc import Unit
 
 NOT_DECIDED = [
-    "rotation invariance of q_l and w-hat_l (needs unitarity of the Wigner D-matrices: no contract on this code expresses it)",
+    "rotation invariance of q_l, w-hat_l, |psi_l|, tetrahedral order, shape descriptors, participation ratio for open clusters (needs unitarity of "
+    "the Wigner D-matrices / orthogonal invariance of eigenvalues: no contract on this code expresses it) — bounded stand-in only",
     "'to floating-point accuracy': the proofs are exact over the reals (A1)",
-    "relabelling of particle ids for pair sums (reindexing a double Σ by a bijection is a trusted rule that is not mechanised here; validated by replay only)",
+    "exact half-cell ties under lattice shifts (hypothesis of C02 clause c; stated in the clause names)",
+    "relabelling of particle ids where a sum over ALL particles or over pairs has to be re-indexed: g(r), conditional_gr, Hessian assembly, "
+    "S2 (sum over j != i), relaxation functions, gyration tensor, tetrahedral order and the neighbour writers (argpartition / argsort rows): bounded "
+    "stand-in only.  Proved: psi_l, q_lm, Q_lm (sums over neighbour slots: only PI(PINV(j)) = j is needed); S(q) with the reindexing rule as a "
+    "TRUSTED hypothesis",
+    "axis permutation of: |psi_l| (atan2 under the exchange of its arguments), q_l / w_l (a rotation), tetrahedral order (the argpartition "
+    "contract's symbol depends on the order of summation), Hessian (blocks permute), S(q) (the wave-vector list is permuted), relaxation with "
+    "minimum-image displacements (x-only): bounded stand-in only",
+    "derived bond-order invariants q_l, Q_l, w_l, w-hat_l: functions of the proved-invariant q_lm / Q_lm arrays, the methods ql_Ql / w_W_cap "
+    "themselves are not run relationally (bounded stand-in)",
+    "Hessian: eigenvectors / participation ratios of the run on g.x (eigh's result is not unique for degenerate spectra); the matrix handed to "
+    "eigh is proved identical, the spectrum is a function of it",
+    "S(q): the returned table is groupby(|q|).mean() of the per-wave-vector table proved invariant (the engine's groupby contract introduces "
+    "fresh group symbols per call, so the grouped tables of two runs are not compared)",
+    "lattice shifts in Dynamics.relaxation: the shift of a particle is the same in every frame (a shift that changes between frames changes "
+    "unwrapped displacements)",
+    "dilation: lemmas over the contracts + bounded stand-in (no relational unit)",
 ]
 TRUSTED = [
-    "Σ-congruence (extensionality axiom instances of pyvc/axioms.py) for the lemma route",
+    "Σ axiom instances of pyvc/axioms.py: extensionality (with pointwise facts, each proved at an arbitrary index as its own obligation), "
+    "linearity (sigma_linear) and constant summand (const_sum) for the centre of mass, unfold-last (as rewrites in the induction step of S(q))",
+    "induction over the number of particles (S(q) under translation): base and step are obligations, the principle is trusted",
+    "angle-addition instances cos(A+B) = cos A cos B - sin A sin B, sin(A+B) = sin A cos B + cos A sin B (S(q), translation), 2 pi Z periodicity "
+    "instances with Z an integer-sorted term (S(q), lattice shift), cos^2 + sin^2 = 1 (hypothesis of the frame-term lemma): used as rewrites / "
+    "hypotheses, the argument identities (argument of the code = A + B) are obligations",
+    "application of clause (c) of the remove_pbc contract (C02, re-verified by this check) at the calls of the run on g.x (lattice shift), of the "
+    "lemma `remove_pbc commutes with axis permutations` (proved here on the C02 formula) at the calls of the run on g.x (axis permutation)",
+    "relabelling: PI / PINV are mutually inverse bijections of [0, N) (definition of the group element, facts per application); "
+    "Σ-reindexing by a bijection, sum_{i<N} f(PI(i)) = sum_{i<N} f(i), is TRUSTED and used for S(q) only — its instances are explicit hypotheses "
+    "of the `frame-term` obligations",
+    "the setups, callee contracts (read_neighbors, sph_harm_l, s2_integral, PairInteractions.caller, pair_matrix, cage_relative) and written loop "
+    "invariants of the base units (C04, C06, C09, C10, C11, C13, C15, C17) — used as in their own checks; the relational clauses use nothing of "
+    "their functional postconditions",
+    "relational library contracts as functions of their array argument (argpartition, argsort, max, eig / eigh): the same symbol for ring-equal data",
     "the functional contracts of C02 / C03 / C05 the lemma route rests on (their units are re-run by this check)",
 ]
 
 
-def _second_gr(ctx, o1, tr2):
-    """a second gr object: same attributes, transformed trajectory"""
+def _second_gr(ctx, o1, tr2, g=None):
+    """a second gr object: same attributes, transformed trajectory (and mask)"""
     attrs = dict(o1.content)
     attrs["snapshots"] = tr2.snapshots()
+    if g is not None:
+        attrs["ppp"] = g.mask(attrs["ppp"])
     return ctx.obj(C03.MOD, "gr", attrs)
 
 
@@ -76,41 +116,51 @@ class GrTranslation(Unit):
     timeout = 30
     solver_opts = {"rounds": 4}
 
-    def __init__(self, K):
+    def __init__(self, K, g=None):
+        import contracts.C07_units as U
         self.K = K
+        self.g = g or U.TRANSLATION
         self.qualname = f"gr.{C03.METHODS[K]}"
 
     @property
     def name(self):
-        return f"translation:{self.qualname}"
+        return f"{self.g.key}:{self.qualname}"
 
     def cases(self):
         return ["d=2", "d=3"]
 
+    def geo(self, inp):
+        import contracts.C07_units as U
+        return U.traj_geo(inp)
+
     def setup(self, ctx, case):
         d = int(case[2])
         o, inp = C03._setup_self(ctx, d, self.K, None)
-        tv = z3.Function("TVEC", z3.IntSort(), z3.IntSort(), z3.RealSort())
-        tr2 = inp["tr"].view(pos_map=lambda t, s, i, c, base: sv.add(base, sv.SV(tv(sv.znum(s), sv.znum(c)))))
+        geo = self.geo(inp)
+        tr2 = inp["tr"].view(pos_map=lambda t, s, i, c, base: self.g.pos(geo, s, i, c, True), cell_map=lambda t, s, a, b, base: self.g.cell(geo, s, a, b))
         inp.update(o=o, tr2=tr2, k=ctx.int("k"))
         return [o], {}, inp
 
     def clause_names(self, case):
-        return [f"{name}:unchanged-under-translation" for name, _ in C03.columns(self.K)]
+        return [f"{name}:{self.g.what}" for name, _ in C03.columns(self.K)]
 
     def ensures(self, ctx, case, inp, out):
         from pyvc.pandas_model import df_content
         res1 = out.value
-        o2 = _second_gr(ctx, inp["o"], inp["tr2"])
-        res2 = _run_method(ctx, o2, C03.METHODS[self.K])
+        token = self.g.begin(ctx, self, inp)
+        try:
+            o2 = _second_gr(ctx, inp["o"], inp["tr2"], self.g)
+            res2 = _run_method(ctx, o2, C03.METHODS[self.K])
+        finally:
+            self.g.end(ctx, self, inp, token)
         k, B = inp["k"], inp["B"]
         inr = sv.and_(sv.cmp(">=", k, 0), sv.cmp("<", k, B))
         c1, c2 = df_content(res1)["cols"], df_content(res2)["cols"]
         for name, _ in C03.columns(self.K):
-            yield from _related(f"{name}:unchanged-under-translation", inr, c1[name].get((k,)), c2[name].get((k,)))
+            yield from _related(f"{name}:{self.g.what}", inr, c1[name].get((k,)), c2[name].get((k,)))
 
     def replay(self, case, clause, model, seed):
-        return _replay_gr_symmetry(self.K, int(case[2]), seed, "translation")
+        return _replay_gr_symmetry(self.K, int(case[2]), seed, self.g.key)
 
 
 class GrSpeciesSwap(Unit):
@@ -187,6 +237,17 @@ def _replay_gr_symmetry(K, d, seed, kind):
                 pos2 = [p + rng.uniform(-7, 7, size=d) for p in pos]
                 b = getattr(G.gr(build(pos2, types), ppp=ppp, rdelta=rdelta), C03.METHODS[K])()
                 pairs = [(c, c) for c in a.columns]
+            elif kind == "lattice-shift":
+                pos2 = [p + rng.integers(-2, 3, size=(N, d)) @ H for p in pos]
+                b = getattr(G.gr(build(pos2, types), ppp=ppp, rdelta=rdelta), C03.METHODS[K])()
+                pairs = [(c, c) for c in a.columns]
+            elif kind == "axis-permutation":
+                ax = [1, 0] if d == 2 else [1, 2, 0]
+                Hs, Ls = H.copy(), L.copy()
+                H, L = H[np.ix_(ax, ax)], L[ax]
+                b = getattr(G.gr(build([p[:, ax] for p in pos], types), ppp=ppp, rdelta=rdelta), C03.METHODS[K])()
+                H, L = Hs, Ls
+                pairs = [(c, c) for c in a.columns]
             else:
                 b = getattr(G.gr(build(pos, 3 - types), ppp=ppp, rdelta=rdelta), C03.METHODS[K])()
                 pairs = [("gr", "gr"), ("gr11", "gr22"), ("gr22", "gr11"), ("gr12", "gr12")]
@@ -208,13 +269,19 @@ class WriterTranslation(Unit):
     summaries = C05.PBC_OPAQUE
     timeout = 20
 
-    def __init__(self, which):
+    def __init__(self, which, g=None):
+        import contracts.C07_units as U
         self.which = which
         self.qualname = which
+        self.g = g or U.TRANSLATION
 
     @property
     def name(self):
-        return f"translation:{self.which}"
+        return f"{self.g.key}:{self.which}"
+
+    def geo(self, inp):
+        import contracts.C07_units as U
+        return U.traj_geo(inp)
 
     def cases(self):
         return ["d=2", "d=3"]
@@ -222,13 +289,17 @@ class WriterTranslation(Unit):
     def setup(self, ctx, case):
         unit = {"cutoffneighbors": C05.CutoffNeighbors, "Nnearests": C05.NNearests}[self.which]()
         args, kwargs, inp = unit.setup(ctx, case)
-        tv = z3.Function("TVEC", z3.IntSort(), z3.IntSort(), z3.RealSort())
-        tr2 = inp["tr"].view(pos_map=lambda t, s, i, c, base: sv.add(base, sv.SV(tv(sv.znum(s), sv.znum(c)))))
+        geo = self.geo(inp)
+        tr2 = inp["tr"].view(pos_map=lambda t, s, i, c, base: self.g.pos(geo, s, i, c, True), cell_map=lambda t, s, a, b, base: self.g.cell(geo, s, a, b))
         inp.update(args=args, tr2=tr2)
         return args, kwargs, inp
 
+    @property
+    def clause(self):
+        return "rows-identical-under-translation" if self.g.key == "translation" else "rows-identical:" + self.g.what
+
     def clause_names(self, case):
-        return ["rows-identical-under-translation"]
+        return [self.clause]
 
     def ensures(self, ctx, case, inp, out):
         from pyvc.text import Block, Rows, Run, Text, Tok, text_lines
@@ -236,17 +307,19 @@ class WriterTranslation(Unit):
         # second run on the translated trajectory, writing to another file
         m = load_module(C05.CN_MOD)
         fv = FuncVal(m, m.defs[self.which])
-        args2 = [inp["tr2"].snapshots()] + list(inp["args"][1:3]) + ["nb2.dat"]
+        args2 = [inp["tr2"].snapshots(), inp["args"][1], self.g.mask(inp["args"][2]), "nb2.dat"]
         interp = ctx.interp
+        token = self.g.begin(ctx, self, inp)
         interp.depth += 1
         try:
             interp.call_function(fv, args2, {})
         finally:
             interp.depth -= 1
+            self.g.end(ctx, self, inp, token)
         files = [c.data for c in out.state.heap.values() if c.kind == "file" and c.data.get("mode") == "w"]
         f2 = [f for f in files if f.get("path") == "nb2.dat"]
         if f1 is None or len(f2) != 1:
-            yield "rows-identical-under-translation", False
+            yield self.clause, False
             return
         f2 = f2[0]
         s, i = inp["s"], inp["i"]
@@ -268,12 +341,15 @@ class WriterTranslation(Unit):
             a, ra = row_terms(f1)
             b, rb = row_terms(f2)
         except Exception:
-            yield "rows-identical-under-translation", False
+            yield self.clause, False
             return
-        yield "rows-identical-under-translation", sv.implies(sv.and_(ins, ra), sv.and_(*[sv.cmp("==", x, y) for x, y in zip(a, b)]))
+        yield self.clause, sv.implies(sv.and_(ins, ra), sv.and_(*[sv.cmp("==", x, y) for x, y in zip(a, b)]))
 
     def replay(self, case, clause, model, seed):
-        return C05._replay_writer(self.which, int(case[2]), seed)
+        if self.g.key == "translation":
+            return C05._replay_writer(self.which, int(case[2]), seed)
+        import contracts.C07_units as U
+        return U.replay_rel(self.which, self.g.key, seed, case)
 
 
 def lemmas():
@@ -346,7 +422,8 @@ def extra_checks(tier, seed, repo):
     from pyvc.vc import ObResult
     obs = []
     with use_state(State()):
-        for item in lemmas():
+        import contracts.C07_units as U
+        for item in lemmas() + U.axis_lemmas():
             name, goal = item[0], item[1]
             opts = item[2] if len(item) > 2 else {}
             ob = ObResult(f"C07:{name}")
@@ -357,7 +434,7 @@ def extra_checks(tier, seed, repo):
     return {"obligations": obs + rel_obs, "bounded": [bounded]}
 
 
-def _run_relational(seed, repo, only=None):
+def _run_relational(seed, repo, only=None, case=""):
     """contracts/C07_relational.py under the repository's interpreter -> its JSON summary"""
     import json
     import os
@@ -368,7 +445,8 @@ def _run_relational(seed, repo, only=None):
     fd, out = tempfile.mkstemp(prefix="pyvc-c07rel.", suffix=".json")
     os.close(fd)
     try:
-        cmd = [py, os.path.join(here, "C07_relational.py"), repo, str(seed), out] + ([only] if only else [])
+        repo = repo or os.environ.get("PYVC_REPO", "/repo")
+        cmd = [py, os.path.join(here, "C07_relational.py"), repo, str(seed), out] + ([only, case] if only else [])
         r = subprocess.run(cmd, capture_output=True, text=True, timeout=900)
         try:
             with open(out) as f:
@@ -419,21 +497,92 @@ def replay_extra(rec):
 # and the minimum-image contract
 _DEP = [C03.Method(1), C03.Method(2)] + list(C02.UNITS)
 
-UNITS = [GrTranslation(1), GrTranslation(2), GrTranslation(3), GrSpeciesSwap(), WriterTranslation("cutoffneighbors"), WriterTranslation("Nnearests")] + _DEP
+
+
+def _quick():
+    """quick tier of ./check (the case lists below are longer in the thorough tier and in replays)"""
+    import os
+    import sys
+    if not any("pyvc" in a for a in sys.argv[:1]) and "pyvc.main" not in sys.modules:
+        return False
+    tier = os.environ.get("VERIF_TIER", "quick")
+    if "--tier" in sys.argv:
+        tier = sys.argv[sys.argv.index("--tier") + 1]
+    return tier != "thorough"
+
+
+def _relational_units():
+    import contracts.C04 as C04
+    import contracts.C06 as C06
+    import contracts.C09 as C09
+    import contracts.C10 as C10
+    import contracts.C11 as C11
+    import contracts.C13 as C13
+    import contracts.C15 as C15
+    import contracts.C17 as C17
+    import contracts.C07_units as U
+    q = _quick()
+    T = U.TRANSLATION
+    units = [
+        U.Boo2d(C10.LthOrder(), T, cases=["unweighted/nofile", "weighted/nofile"]),
+        U.Boo3d(C09.QlmQlm(), T),
+        U.Tetra(C17.Tetrahedral(), T),
+        U.PairEntropy(C17.ParticleS2(), T, cases=["d=2/s2-only", "d=3/savegr"] if q else None),
+        U.Gyration(C17.Gyration(), T),
+        U.DivCurl(C15.DivergenceCurl(), T),
+        U.Hessian(C11.Diagonalize(), T, cases=["d=2/K=2", "d=3/K=1"]),
+        U.Relaxation(C06.DynRelaxation(), T, cases=["d=2/slow/xu/nocage/all", "d=3/slow/xu/cage/condition", "d=3/fast/x-only/cage/condition"] if q else None),
+        U.CondGr(C13.CondGr(), T, cases=["d=2/float", "d=3/bool", "d=3/vector"] if q else [c for c in C13.CondGr().cases() if "badtype" not in c]),
+    ]
+    L = U.LATTICE
+    for g in (T, L):
+        units += [U.Sq(C04.Method(1), g, cases=["d=2/nofile/species=1", "d=3/nofile/species=1"]), U.Sq(C04.Method(2), g, cases=["d=2/nofile", "d=3/nofile"])]
+        if not q:
+            units += [U.Sq(C04.Method(3), g, cases=["d=2/nofile", "d=3/nofile"])]
+    P = U.RELABEL
+    units += [U.Boo2d(C10.LthOrder(), P, cases=["unweighted/nofile", "weighted/nofile"]), U.Boo3d(C09.QlmQlm(), P, cases=["weighted"] if q else None),
+              U.Sq(C04.Method(1), P, cases=["d=2/nofile/species=1", "d=3/nofile/species=1"]), U.Sq(C04.Method(2), P, cases=["d=2/nofile", "d=3/nofile"])]
+    X = U.AXES
+    units += [
+        GrTranslation(1, X), GrTranslation(2, X), WriterTranslation("cutoffneighbors", X), WriterTranslation("Nnearests", X),
+        U.PairEntropy(C17.ParticleS2(), X, cases=["d=2/s2-only", "d=3/savegr"] if q else None),
+        U.DivCurl(C15.DivergenceCurl(), X),
+        U.Relaxation(C06.DynRelaxation(), X, cases=["d=2/slow/xu/nocage/all", "d=3/slow/xu/cage/condition"] if q else [c for c in C06.DynRelaxation().cases() if "/xu/" in c]),
+        U.CondGr(C13.CondGr(), X, cases=["d=2/float", "d=3/bool", "d=3/vector"] if q else [c for c in C13.CondGr().cases() if "badtype" not in c and "m=3" not in c]),
+    ]
+    units += [
+        GrTranslation(1, L), GrTranslation(2, L), WriterTranslation("cutoffneighbors", L), WriterTranslation("Nnearests", L),
+        U.Boo2d(C10.LthOrder(), L, cases=["unweighted/nofile", "weighted/nofile"]),
+        U.Boo3d(C09.QlmQlm(), L, cases=["unweighted"] if q else None),
+        U.Tetra(C17.Tetrahedral(), L),
+        U.PairEntropy(C17.ParticleS2(), L, cases=["d=2/savegr", "d=3/s2-only"] if q else None),
+        U.DivCurl(C15.DivergenceCurl(), L),
+        U.Hessian(C11.Diagonalize(), L, cases=["d=2/K=2"] if q else ["d=2/K=2", "d=3/K=1"]),
+        U.Relaxation(C06.DynRelaxation(), L, cases=["d=2/slow/x-only/nocage/all", "d=3/slow/xu/cage/condition", "d=3/fast/x-only/cage/condition"] if q else None),
+        U.CondGr(C13.CondGr(), L, cases=["d=2/float", "d=3/bool", "d=3/vector"] if q else [c for c in C13.CondGr().cases() if "badtype" not in c]),
+    ]
+    return units
+
+
+UNITS = [GrTranslation(1), GrTranslation(2), GrTranslation(3), GrSpeciesSwap(), WriterTranslation("cutoffneighbors"), WriterTranslation("Nnearests")] \
+    + _relational_units() + _DEP
 
 
 MANIFEST = {
-    "text": "Relational execution of the real ASTs (symbolic T, N, cells, masks, bin index; d in {2,3}): gr.unary/binary/ternary return "
-            "identical columns for a trajectory and its rigid translation (an arbitrary vector per frame); gr.binary with the two species "
-            "labels swapped returns the same total and cross column and swaps gr11/gr22; cutoffneighbors and Nnearests write identical rows "
-            "for a trajectory and its translation. Lemmas over the proved contracts: the minimum-image vector of a pair is invariant under "
-            "integer lattice shifts of either particle along periodic axes (away from ties), scales with a common dilation of coordinates and "
-            "cell, and its norm is invariant under a permutation of the axes of an orthogonal cell together with the mask; bin membership and "
-            "V/shell are scale free; the species swap maps each pair selector to the swapped one. The functional units these lemmas rest on "
-            "(C02 remove_pbc, C03 gr.unary/binary count and normalisation clauses) are re-verified in the same run.",
-    "note": "floats as reals (A1): 'to floating-point accuracy' is not decided; rotation invariance of q_l / w-hat_l is not decidable by "
-            "contracts on this code; relabelling of ids for pair sums needs the reindexing rule for double sums (not mechanised; replay only); "
-            "the extension of the relational units to S(q), BOO, tetrahedral order, pair entropy, Hessian and dynamics follows their own "
-            "contracts (C04, C06, C09-C11, C17) and is listed under not_decided_clauses where not done",
+    "text": "Relational execution of the real ASTs on x and on g.x (symbolic T, N, cells, masks, indices; d in {2,3}), results compared at a symbolic "
+            "index. TRANSLATION (a vector per frame; one vector where frames are compared): g(r) unary/binary/ternary, cutoffneighbors, Nnearests, "
+            "S(q) unary/binary per wave vector (unit-modulus phase: induction over particles, polynomial lemma), boo_2d.lthorder psi_l, boo_3d q_lm and Q_lm, "
+            "q8_tetrahedral, S2.particle_s2 (S2 and particle g(r)), gyration_tensor (tensor and descriptors: Σ-linearity of the centre of mass), "
+            "divergence_curl, the Hessian handed to eigh (assembly loops of the second run re-verified), Dynamics.relaxation (all six columns), "
+            "conditional_gr. LATTICE SHIFTS of single particles along periodic axes, away from half-cell ties: the same list (C02 clause c applied at every "
+            "remove_pbc call, rows decomposed as row + integer lattice vector; S(q): 2 pi periodicity; not gyration). AXIS PERMUTATION with cell and mask: g(r), "
+            "neighbour writers, S2, divergence and curl, relaxation (unwrapped), conditional_gr. RELABELLING: psi_l, q_lm, Q_lm permute with the ids "
+            "(neighbour / weight files relabelled consistently); S(q) under the trusted reindexing rule. SPECIES SWAP: gr.binary swaps gr11/gr22. "
+            "Lemmas over the proved contracts: lattice shift, dilation, axis permutation (general cell), selector swap. The units of remove_pbc (C02) and "
+            "gr.unary/binary (C03) the lemma route rests on are re-verified in the same run.",
+    "note": "floats as reals (A1); rotations of open clusters, relabelling of pair sums / sums over all particles, axis permutation of BOO / tetrahedral / "
+            "Hessian / S(q), derived invariants q_l, w_l and dilation of g(r) remain in the bounded relational stand-in (contracts/C07_relational.py, "
+            "36 relations, reported under `bounded`, never counted); lattice-shift clauses assume no row at an exact half-cell tie; the Σ-reindexing rule "
+            "(S(q) relabelling), angle-addition / periodicity instances and the induction principle are trusted (TRUSTED)",
     "category": "proof",
 }
